@@ -587,31 +587,120 @@ theorem polyline_rounded_error (p : Polyline K) (d : Option Nat) (i : Nat) (hi :
   simp only [plRounded, List.getElem_map, roundV3]
   exact ⟨around_error _ _, around_error _ _, around_error _ _⟩
 
-/-- a unit normal rounded to `d` decimals passes the unit-length check at `d` decimals and at every
-    coarser `d' ≤ d` -/
-theorem almostUnit_round (n : V3 K) (hn : n.normSq = 1) (d d' : Nat) (h : d' ≤ d) :
-    almostUnit d' (roundV3 d n) = true := by
-  obtain ⟨h0, h1⟩ := unitTol_range (K := K) d'
-  have he : (roundV3 d n - n).normSq ≤ unitTol d' * unitTol d' := by
-    have h2 := round_normSq_error d n
-    have h3 := unitTol_anti (K := K) h
-    have h4 := (unitTol_range (K := K) d).1
-    nlinarith
-  obtain ⟨hl, hu⟩ := normSq_perturbed n (roundV3 d n) (unitTol d') hn h0 h1 he
-  simp [almostUnit, hl, hu]
+/-! ### unit length after rounding, for a normal that is unit only up to `δ`
 
-/-- **rounded_total**: for an exactly unit normal, `Plane.rounded` succeeds for every number of position and
-    direction decimals (and the defaults) and returns the componentwise rounded plane -/
-theorem plane_rounded_total (p : Plane K) (hn : p.n.normSq = 1) (pd dd : Option Nat) :
+A normal with `double` components is never *exactly* unit unless it is axis-aligned; a normal normalised in
+double precision satisfies `|n·n − 1| ≤ 4·2⁻⁵²` (the harness checks this on every normal it generates).  The
+theorems are stated for any `δ` under an explicit smallness condition, instantiated at `δ = 4·2⁻⁵²`, `d ≤ 12`
+(the property's range), and the exact-unit statements are the corollaries `δ = 0`. -/
+
+/-- **rounded_total, slack form**: `|n·n − 1| ≤ δ < 1`; the normal is rounded to `d` decimals and checked at `d'`.
+    Explicit condition: `2(1+δ)·(7/8)·10⁻ᵈ + δ(1 + 10⁻ᵈ') ≤ 2·10⁻ᵈ'` (`7/8 ≥ √3/2` keeps the statement free of square
+    roots; the sharp ℝ form is `almostUnit_round_real`). -/
+theorem almostUnit_round_slack (n : V3 K) (δ : K) (hδ0 : 0 ≤ δ) (hδ1 : δ < 1) (hn : |n.normSq - 1| ≤ δ)
+    (d d' : Nat) (hC : 2 * (1 + δ) * (7 / 8 * unitTol d) + δ * (1 + unitTol d') ≤ 2 * unitTol d') :
+    almostUnit d' (roundV3 d n) = true := by
+  have hu := (unitTol_range (K := K) d).1
+  have he : (roundV3 d n - n).normSq ≤ (7 / 8 * unitTol d) * (7 / 8 * unitTol d) := by
+    have h2 := round_normSq_error d n
+    have h3 : (0 : K) ≤ unitTol d * unitTol d := mul_self_nonneg _
+    have e : (7 / 8 * (unitTol d : K)) * (7 / 8 * unitTol d) = 49 / 64 * (unitTol d * unitTol d) := by ring
+    rw [e]; linarith
+  obtain ⟨hl, hu'⟩ := normSq_perturbed_slack n (roundV3 d n) δ (7 / 8 * unitTol d) (unitTol d') hδ0 hδ1 hn
+    (by positivity) (unitTol_range (K := K) d').2 he hC
+  simp [almostUnit, hl, hu']
+
+/-- the condition holds as soon as `15·δ ≤ 10⁻ᵈ` (and `d' ≤ d`) -/
+theorem almostUnit_round_of_small (n : V3 K) (δ : K) (hδ0 : 0 ≤ δ) (hn : |n.normSq - 1| ≤ δ)
+    (d d' : Nat) (h15 : 15 * δ ≤ unitTol d) (h : d' ≤ d) :
+    almostUnit d' (roundV3 d n) = true := by
+  obtain ⟨hu0, hu1⟩ := unitTol_range (K := K) d
+  obtain ⟨ha0, ha1⟩ := unitTol_range (K := K) d'
+  have hua := unitTol_anti (K := K) h
+  have h1 : δ * unitTol d ≤ δ := by
+    have := mul_le_mul_of_nonneg_left hu1 hδ0
+    simpa using this
+  have h2 : δ * unitTol d' ≤ δ := by
+    have := mul_le_mul_of_nonneg_left ha1 hδ0
+    simpa using this
+  apply almostUnit_round_slack n δ hδ0 (by linarith) hn d d'
+  have e : 2 * (1 + δ) * (7 / 8 * unitTol d) + δ * (1 + unitTol d')
+      = 7 / 4 * unitTol d + 7 / 4 * (δ * unitTol d) + δ + δ * unitTol d' := by ring
+  rw [e]; linarith
+
+/-- instantiated for a normal normalised in double precision and the property's range `d ≤ 12` -/
+theorem almostUnit_round_double (n : V3 K) (hn : |n.normSq - 1| ≤ 4 / 2 ^ 52) (d d' : Nat) (h : d' ≤ d)
+    (hd : d ≤ 12) : almostUnit d' (roundV3 d n) = true := by
+  apply almostUnit_round_of_small n (4 / 2 ^ 52) (by positivity) hn d d' _ h
+  have h12 := unitTol_anti (K := K) hd
+  rw [unitTol_eq 12] at h12
+  have : (15 : K) * (4 / 2 ^ 52) ≤ 1 / 10 ^ 12 := by norm_num
+  linarith
+
+/-- an exactly unit normal rounded to `d` decimals passes the unit-length check at `d` decimals and at every
+    coarser `d' ≤ d` (the case `δ = 0`) -/
+theorem almostUnit_round (n : V3 K) (hn : n.normSq = 1) (d d' : Nat) (h : d' ≤ d) :
+    almostUnit d' (roundV3 d n) = true :=
+  almostUnit_round_of_small n 0 le_rfl (by simp [hn]) d d' (by simpa using (unitTol_range (K := K) d).1) h
+
+theorem planeRounded_of_almostUnit (p : Plane K) (pd dd : Option Nat)
+    (h : almostUnit (dd.getD Gen.Ser.planeDefaultDirectionDecimals)
+      (roundV3 (dd.getD Gen.Ser.planeDefaultDirectionDecimals) p.n) = true) :
     planeRounded p pd dd = .ok ⟨roundV3 (pd.getD Gen.Ser.planeDefaultPositionDecimals) p.ref,
       roundV3 (dd.getD Gen.Ser.planeDefaultDirectionDecimals) p.n⟩ := by
-  simp [planeRounded, planeCtor, almostUnit_round p.n hn _ _ (le_refl _)]
+  simp [planeRounded, planeCtor, h]
+
+/-- **rounded_total (Plane), slack form**: `Plane.rounded` succeeds and returns the componentwise rounded plane
+    whenever `|n·n − 1| ≤ δ` with `15·δ ≤ 10⁻ᵈ` at the requested direction decimals `d` -/
+theorem plane_rounded_total_slack (p : Plane K) (δ : K) (hδ0 : 0 ≤ δ) (hn : |p.n.normSq - 1| ≤ δ)
+    (pd dd : Option Nat) (h15 : 15 * δ ≤ unitTol (dd.getD Gen.Ser.planeDefaultDirectionDecimals)) :
+    planeRounded p pd dd = .ok ⟨roundV3 (pd.getD Gen.Ser.planeDefaultPositionDecimals) p.ref,
+      roundV3 (dd.getD Gen.Ser.planeDefaultDirectionDecimals) p.n⟩ :=
+  planeRounded_of_almostUnit p pd dd (almostUnit_round_of_small p.n δ hδ0 hn _ _ h15 (le_refl _))
+
+theorem planeSerialize_of_rounded (p q : Plane K) (pd dd : Option Nat) (h : planeRounded p pd dd = .ok q) :
+    planeSerialize p pd dd = .ok (planeJson q) := by
+  simp [planeSerialize, h, bind, Except.bind, pure, Except.pure]
+
+/-- … and so does `Plane.serialize`, with the rounded vectors under the schema's key names -/
+theorem plane_serialize_total_slack (p : Plane K) (δ : K) (hδ0 : 0 ≤ δ) (hn : |p.n.normSq - 1| ≤ δ)
+    (pd dd : Option Nat) (h15 : 15 * δ ≤ unitTol (dd.getD Gen.Ser.planeDefaultDirectionDecimals)) :
+    planeSerialize p pd dd = .ok (planeJson ⟨roundV3 (pd.getD Gen.Ser.planeDefaultPositionDecimals) p.ref,
+      roundV3 (dd.getD Gen.Ser.planeDefaultDirectionDecimals) p.n⟩) :=
+  planeSerialize_of_rounded p _ pd dd (plane_rounded_total_slack p δ hδ0 hn pd dd h15)
+
+theorem double_slack_small (d : Nat) (hd : d ≤ 12) : (15 : K) * (4 / 2 ^ 52) ≤ unitTol d := by
+  have h12 := unitTol_anti (K := K) hd
+  rw [unitTol_eq 12] at h12
+  have : (15 : K) * (4 / 2 ^ 52) ≤ 1 / 10 ^ 12 := by norm_num
+  linarith
+
+/-- **rounded_total (Plane), double precision**: for a normal normalised in double precision
+    (`|n·n − 1| ≤ 4·2⁻⁵²`) `rounded` succeeds for every position decimals and every direction decimals `≤ 12` -/
+theorem plane_rounded_total_double (p : Plane K) (hn : |p.n.normSq - 1| ≤ 4 / 2 ^ 52) (pd dd : Option Nat)
+    (hdd : dd.getD Gen.Ser.planeDefaultDirectionDecimals ≤ 12) :
+    planeRounded p pd dd = .ok ⟨roundV3 (pd.getD Gen.Ser.planeDefaultPositionDecimals) p.ref,
+      roundV3 (dd.getD Gen.Ser.planeDefaultDirectionDecimals) p.n⟩ :=
+  plane_rounded_total_slack p _ (by positivity) hn pd dd (double_slack_small _ hdd)
+
+theorem plane_serialize_total_double (p : Plane K) (hn : |p.n.normSq - 1| ≤ 4 / 2 ^ 52) (pd dd : Option Nat)
+    (hdd : dd.getD Gen.Ser.planeDefaultDirectionDecimals ≤ 12) :
+    planeSerialize p pd dd = .ok (planeJson ⟨roundV3 (pd.getD Gen.Ser.planeDefaultPositionDecimals) p.ref,
+      roundV3 (dd.getD Gen.Ser.planeDefaultDirectionDecimals) p.n⟩) :=
+  plane_serialize_total_slack p _ (by positivity) hn pd dd (double_slack_small _ hdd)
+
+/-- **rounded_total**: for an exactly unit normal, `Plane.rounded` succeeds for every number of position and
+    direction decimals (and the defaults) and returns the componentwise rounded plane (`δ = 0`) -/
+theorem plane_rounded_total (p : Plane K) (hn : p.n.normSq = 1) (pd dd : Option Nat) :
+    planeRounded p pd dd = .ok ⟨roundV3 (pd.getD Gen.Ser.planeDefaultPositionDecimals) p.ref,
+      roundV3 (dd.getD Gen.Ser.planeDefaultDirectionDecimals) p.n⟩ :=
+  plane_rounded_total_slack p 0 le_rfl (by simp [hn]) pd dd (by simpa using (unitTol_range (K := K) _).1)
 
 /-- … and so does `Plane.serialize`, with the rounded vectors under the schema's key names -/
 theorem plane_serialize_total (p : Plane K) (hn : p.n.normSq = 1) (pd dd : Option Nat) :
     planeSerialize p pd dd = .ok (planeJson ⟨roundV3 (pd.getD Gen.Ser.planeDefaultPositionDecimals) p.ref,
-      roundV3 (dd.getD Gen.Ser.planeDefaultDirectionDecimals) p.n⟩) := by
-  simp [planeSerialize, plane_rounded_total p hn, bind, Except.bind, pure, Except.pure]
+      roundV3 (dd.getD Gen.Ser.planeDefaultDirectionDecimals) p.n⟩) :=
+  planeSerialize_of_rounded p _ pd dd (plane_rounded_total p hn pd dd)
 
 /-- every coordinate of the rounded plane is within half a unit of the last kept decimal -/
 theorem plane_rounded_error (p q : Plane K) (pd dd : Option Nat) (h : planeRounded p pd dd = .ok q) :
@@ -626,19 +715,44 @@ theorem plane_rounded_error (p q : Plane K) (pd dd : Option Nat) (h : planeRound
   simp only [roundV3]
   exact ⟨⟨around_error _ _, around_error _ _, around_error _ _⟩, ⟨around_error _ _, around_error _ _, around_error _ _⟩⟩
 
-/-- **roundtrip (Plane)**: for a unit normal, serialising with any position decimals and with the default
-    (or any finer) direction decimals and deserialising yields exactly `rounded` with the same arguments -/
-theorem plane_roundtrip (p : Plane K) (hn : p.n.normSq = 1) (pd dd : Option Nat)
+/-- **roundtrip (Plane), slack form**: `|n·n − 1| ≤ δ`, `15·δ ≤ 10⁻ᵈ` at the requested direction decimals `d`,
+    and `d` at least the default: serialising and deserialising yields exactly `rounded` with the same arguments -/
+theorem plane_roundtrip_slack (p : Plane K) (δ : K) (hδ0 : 0 ≤ δ) (hn : |p.n.normSq - 1| ≤ δ) (pd dd : Option Nat)
+    (h15 : 15 * δ ≤ unitTol (dd.getD Gen.Ser.planeDefaultDirectionDecimals))
     (hdd : Gen.Ser.planeDefaultDirectionDecimals ≤ dd.getD Gen.Ser.planeDefaultDirectionDecimals) :
     ∃ q doc, planeRounded p pd dd = .ok q ∧ planeSerialize p pd dd = .ok doc ∧ planeDeserialize doc = .ok q := by
-  refine ⟨_, _, plane_rounded_total p hn pd dd, plane_serialize_total p hn pd dd, ?_⟩
+  refine ⟨_, _, plane_rounded_total_slack p δ hδ0 hn pd dd h15, plane_serialize_total_slack p δ hδ0 hn pd dd h15, ?_⟩
   rw [planeJson_deserialize]
-  simp [planeCtor, almostUnit_round p.n hn _ _ hdd]
+  simp [planeCtor, almostUnit_round_of_small p.n δ hδ0 hn _ _ h15 hdd]
+
+/-- **roundtrip (Plane), double precision**: normal normalised in double precision, direction decimals between the
+    default and 12 -/
+theorem plane_roundtrip_double (p : Plane K) (hn : |p.n.normSq - 1| ≤ 4 / 2 ^ 52) (pd dd : Option Nat)
+    (hdd : Gen.Ser.planeDefaultDirectionDecimals ≤ dd.getD Gen.Ser.planeDefaultDirectionDecimals)
+    (hdd' : dd.getD Gen.Ser.planeDefaultDirectionDecimals ≤ 12) :
+    ∃ q doc, planeRounded p pd dd = .ok q ∧ planeSerialize p pd dd = .ok doc ∧ planeDeserialize doc = .ok q :=
+  plane_roundtrip_slack p _ (by positivity) hn pd dd (double_slack_small _ hdd') hdd
+
+/-- … in particular at the default direction decimals (by G: the default is 6 ≤ 12) -/
+theorem plane_roundtrip_default_double (p : Plane K) (hn : |p.n.normSq - 1| ≤ 4 / 2 ^ 52) (pd : Option Nat) :
+    ∃ q doc, planeRounded p pd none = .ok q ∧ planeSerialize p pd none = .ok doc ∧ planeDeserialize doc = .ok q :=
+  plane_roundtrip_double p hn pd none (le_refl _) (by simp [gen_default_decimals.2.2])
+
+/-- **roundtrip (Plane)**: for an exactly unit normal, serialising with any position decimals and with the default
+    (or any finer) direction decimals and deserialising yields exactly `rounded` with the same arguments (`δ = 0`) -/
+theorem plane_roundtrip (p : Plane K) (hn : p.n.normSq = 1) (pd dd : Option Nat)
+    (hdd : Gen.Ser.planeDefaultDirectionDecimals ≤ dd.getD Gen.Ser.planeDefaultDirectionDecimals) :
+    ∃ q doc, planeRounded p pd dd = .ok q ∧ planeSerialize p pd dd = .ok doc ∧ planeDeserialize doc = .ok q :=
+  plane_roundtrip_slack p 0 le_rfl (by simp [hn]) pd dd (by simpa using (unitTol_range (K := K) _).1) hdd
 
 /-- the default direction decimals are among those that round-trip -/
 theorem plane_roundtrip_default (p : Plane K) (hn : p.n.normSq = 1) (pd : Option Nat) :
     ∃ q doc, planeRounded p pd none = .ok q ∧ planeSerialize p pd none = .ok doc ∧ planeDeserialize doc = .ok q :=
   plane_roundtrip p hn pd none (le_refl _)
+
+/-- the slack hypothesis is satisfiable by a normal that is *not* exactly unit -/
+example : ∃ n : V3 ℚ, n.normSq ≠ 1 ∧ |n.normSq - 1| ≤ 4 / 2 ^ 52 :=
+  ⟨⟨1 + 1 / 2 ^ 53, 0, 0⟩, by norm_num [V3.normSq_def], by norm_num [V3.normSq_def, abs_le]⟩
 
 /-- the hypotheses are satisfiable: an oblique unit normal with rational components -/
 example : ∃ p : Plane ℚ, p.n.normSq = 1 ∧ p.n.x ≠ 0 ∧ p.n.y ≠ 0 ∧ p.n.z ≠ 0 :=
@@ -711,6 +825,66 @@ theorem rounded_norm_bound_real (n : V3 ℝ) (hn : n.normSq = 1) (d : Nat) :
     simp only [V3.norm, PW.sqrt, Sqrt.sqrt]
     exact (unit_check_sqrt_free ε _ he0 he1 hnn).mpr ⟨hl, hu⟩
   · nlinarith
+
+/-- **rounded_total (ℝ, slack form)**: `|n·n − 1| ≤ δ` ⇒ `|‖round_d n‖ − 1| ≤ (√3/2)·10⁻ᵈ + δ` -/
+theorem rounded_norm_bound_real_slack (n : V3 ℝ) (δ : ℝ) (hδ0 : 0 ≤ δ) (hn : |n.normSq - 1| ≤ δ) (d : Nat) :
+    |V3.norm (roundV3 d n) - 1| ≤ Real.sqrt 3 / 2 * (1 / 10 ^ d) + δ := by
+  have h3 : Real.sqrt 3 * Real.sqrt 3 = 3 := Real.mul_self_sqrt (by norm_num)
+  have h3pos : 0 ≤ Real.sqrt 3 := Real.sqrt_nonneg 3
+  set r := roundV3 d n with hr
+  have hss : 0 ≤ n.normSq := by
+    simp only [V3.normSq_def]; nlinarith [mul_self_nonneg n.x, mul_self_nonneg n.y, mul_self_nonneg n.z]
+  have hrr : 0 ≤ r.normSq := by
+    simp only [V3.normSq_def]; nlinarith [mul_self_nonneg r.x, mul_self_nonneg r.y, mul_self_nonneg r.z]
+  simp only [V3.norm, PW.sqrt, Sqrt.sqrt]
+  have hu0 := Real.sqrt_nonneg r.normSq
+  have hv0 := Real.sqrt_nonneg n.normSq
+  have huu := Real.mul_self_sqrt hrr
+  have hvv := Real.mul_self_sqrt hss
+  -- Cauchy–Schwarz with the norms
+  have hcs : r.dot n ≤ Real.sqrt r.normSq * Real.sqrt n.normSq := by
+    have h := dot_sq_le r n
+    rw [← Real.sqrt_mul hrr]
+    exact le_trans (le_abs_self _) (Real.abs_le_sqrt (by rw [sq]; exact h))
+  -- (‖r‖ − ‖n‖)² ≤ (r−n)·(r−n) ≤ w²
+  have he := round_normSq_error d n
+  rw [unitTol_eq] at he
+  have hexp : (r - n).normSq = r.normSq + n.normSq - 2 * r.dot n := by
+    simp only [V3.dot_def, V3.normSq_def, V3.sub_x, V3.sub_y, V3.sub_z]; ring
+  set u := Real.sqrt r.normSq
+  set v := Real.sqrt n.normSq
+  set w := Real.sqrt 3 / 2 * (1 / 10 ^ d) with hw
+  have hw0 : 0 ≤ w := by positivity
+  have hww : w * w = 3 / 4 * (1 / 10 ^ d * (1 / 10 ^ d)) := by
+    rw [hw]; linear_combination (1 / 4 * (1 / 10 ^ d * (1 / 10 ^ d))) * h3
+  have hsq : (u - v) * (u - v) ≤ w * w := by
+    have e : (u - v) * (u - v) = u * u + v * v - 2 * (u * v) := by ring
+    rw [e, huu, hvv, hww]
+    rw [hexp] at he
+    linarith
+  have huv : |u - v| ≤ w := abs_le_of_sq_le_sq' (by simpa [sq] using hsq) hw0 |> fun h => abs_le.mpr h
+  -- |‖n‖ − 1| ≤ |n·n − 1| ≤ δ
+  obtain ⟨hs1, hs2⟩ := abs_le.mp hn
+  have hv1 : |v - 1| ≤ δ := by
+    rw [abs_le]
+    have e : (v - 1) * (v + 1) = n.normSq - 1 := by rw [← hvv]; ring
+    constructor
+    · by_contra hc
+      have hc := not_le.mp hc
+      nlinarith
+    · by_contra hc
+      have hc := not_le.mp hc
+      nlinarith
+  calc |u - 1| = |(u - v) + (v - 1)| := by ring_nf
+    _ ≤ |u - v| + |v - 1| := abs_add_le _ _
+    _ ≤ w + δ := add_le_add huv hv1
+
+/-- **rounded_total (ℝ, sharp explicit condition)**: if `(√3/2)·10⁻ᵈ + δ ≤ 10⁻ᵈ'` the normal rounded to `d` decimals
+    passes the constructor's unit check at `d'` decimals -/
+theorem almostUnit_round_real (n : V3 ℝ) (δ : ℝ) (hδ0 : 0 ≤ δ) (hn : |n.normSq - 1| ≤ δ) (d d' : Nat)
+    (hcond : Real.sqrt 3 / 2 * (1 / 10 ^ d) + δ ≤ 1 / 10 ^ d') :
+    almostUnit d' (roundV3 d n) = true :=
+  (almostUnit_iff_real d' _).mpr (le_trans (rounded_norm_bound_real_slack n δ hδ0 hn d) hcond)
 
 end Real
 
